@@ -40,3 +40,71 @@ PERSIST_SINKS_EXACT = [
 
 def fmt_path(names):
     return " -> ".join(names)
+
+
+def ref_field_of(f, local):
+    """if `local` is assigned `&[mut] <place>` whose projection ends in a field, return (adt, field)"""
+    for i in range(f.n):
+        for st in f.stmts(i):
+            if st["d"]["l"] == local and not proj(st["d"]) and st["r"].get("k") in ("ref", "rawptr"):
+                fs = place_fields(st["r"]["p"])
+                if fs:
+                    return fs[-1]
+    return None
+
+
+def calls_on_field(f, field, adt=None, callee_pat=None):
+    """calls whose first argument is a borrow of `<..>.field` (e.g. self.tombstones.write())"""
+    out = []
+    for c in f.normal_calls():
+        if not c.args:
+            continue
+        if callee_pat is not None and not c.matches([callee_pat]):
+            continue
+        l = op_local(c.args[0])
+        if l is None:
+            continue
+        # direct place argument (copy/move of a field) or a ref local
+        p = op_place(c.args[0])
+        fs = place_fields(p)
+        if not fs:
+            r = ref_field_of(f, l)
+            fs = [r] if r else []
+        if fs and fs[-1][1] == field and (adt is None or fs[-1][0] == adt):
+            out.append(c)
+    return out
+
+
+def branch_on_result(f, call):
+    """follow the call's continuation to the switch on its (bool) result.
+    returns (switch_bb, false_target, true_target) or None"""
+    if call.target is None:
+        return None
+    tracked = {call.dst["l"]}
+    negated = False
+    bb = call.target
+    for _ in range(6):
+        for st in f.stmts(bb):
+            rv = st["r"]
+            if rv.get("k") == "use" and op_local(rv["o"]) in tracked and not proj(st["d"]):
+                tracked.add(st["d"]["l"])
+            elif rv.get("k") == "un" and rv.get("op") == "Not" and op_local(rv["o"]) in tracked:
+                tracked = {st["d"]["l"]}
+                negated = not negated
+        t = f.term(bb)
+        if t["k"] == "switch" and op_local(t["on"]) in tracked:
+            false_t = None
+            for v, tg in t["tg"]:
+                if v == "0":
+                    false_t = tg
+            true_t = t["else"]
+            if false_t is None:
+                return None
+            if negated:
+                false_t, true_t = true_t, false_t
+            return (bb, false_t, true_t)
+        if t["k"] == "goto":
+            bb = t["to"]
+            continue
+        return None
+    return None
